@@ -1,6 +1,7 @@
 package main
 
 import (
+	"encoding/binary"
 	"fmt"
 	"io"
 	"math/rand"
@@ -327,6 +328,83 @@ func streamC06Gw(env *runEnv) {
 			env.count("c06gw.upload." + verdict)
 			env.emit("exact", fmt.Sprintf("upload-%s-%d-bytes-then-%s", tr, total, end), verdict)
 			b.close()
+		}
+	}
+	// (d) a request is answered while the host is streaming: everything the client receives is a whole,
+	// well-formed packet, the DATA payloads are the host's stream in order, the answer is the answer
+	rounds := 10
+	if env.thorough() {
+		rounds = 60
+	}
+	for _, tr := range []string{"ws", "legacy"} {
+		verdict := "exact"
+		for k := 0; k < rounds && verdict == "exact"; k++ {
+			n++
+			tag := fmt.Sprintf("<s%d-%d>", env.seed, n)
+			b := newTagBackend([]byte(strings.Repeat(tag, (1<<20)/len(tag))))
+			b.piece, b.pace = 1200, 0
+			host, port := splitHostPort(b.addr)
+			c, err := openTunnel(srv.inst, tunnelScript{transport: tr, id: fmt.Sprintf("{c06gw-%d-%d}", env.seed, n)})
+			if err != nil || !setup(c, host, port, tr == "legacy") {
+				verdict = "setup-failed"
+				b.close()
+				break
+			}
+			go func() {
+				c.send(packet(ptData, dataBody([]byte("client-speaks-first")))) // the channel counts as open from the first client data on
+				time.Sleep(time.Duration(5+k) * time.Millisecond)
+				c.send(packet(ptCloseChannel, nil))
+			}()
+			got, answers := 0, 0
+			for {
+				m, err := c.recv(3 * time.Second)
+				if err != nil {
+					break
+				}
+				if len(m) < 8 || int(binary.LittleEndian.Uint32(m[4:8])) != len(m) {
+					verdict = "malformed-packet-while-streaming:" + hx(m[:min(len(m), 24)])
+					break
+				}
+				switch ty := int(m[0]) | int(m[1])<<8; ty {
+				case ptData:
+					if len(m) < 10 || int(m[8])|int(m[9])<<8 != len(m)-10 || got+len(m)-10 > len(b.sends) ||
+						string(b.sends[got:got+len(m)-10]) != string(m[10:]) {
+						verdict = fmt.Sprintf("host-bytes-differ-at-%d", got)
+					}
+					got += len(m) - 10
+				case 0x11: // CLOSE_CHANNEL_RESPONSE
+					answers++
+					if hx(m) != "1100000014000000000000000100000001000000" {
+						verdict = "close-answer-differs:" + hx(m)
+					}
+				default:
+					verdict = fmt.Sprintf("unexpected-packet-type-%d-while-streaming", ty)
+				}
+				if verdict != "exact" {
+					break
+				}
+			}
+			if verdict == "exact" && answers != 1 {
+				verdict = fmt.Sprintf("close-answered-%d-times", answers)
+			}
+			c.close()
+			b.close()
+		}
+		env.count("c06gw.answer-while-streaming." + strings.SplitN(verdict, ":", 2)[0])
+		env.emit("exact", "close-answered-while-host-streams-"+tr, verdict)
+	}
+	// (e) several hosts streaming at once, half of the clients reading slowly: every client's bytes are exactly its host's
+	{
+		nb, size := 6, 12<<20
+		if env.thorough() {
+			nb, size = 8, 48<<20
+		}
+		for i, v := range bulkProbe(srv, nb, size, fmt.Sprintf("c06-bulk-%d", env.seed), false) {
+			if v == "own-bytes-only" {
+				v = "exact"
+			}
+			env.count("c06gw.bulk." + v)
+			env.emit("exact", fmt.Sprintf("host-stream-%d-of-%d-concurrent-%d-bytes", i, nb, size), v)
 		}
 	}
 	// (c) thorough: a legacy client that stops reading for 7 s while its host streams
